@@ -62,6 +62,12 @@ type JumpIf struct {
 	falseLabel Label
 }
 
+// JumpTo is an unconditional jump to a label, inserted to bridge a long conditional jump.
+type JumpTo struct {
+	index Index
+	label Label
+}
+
 // The Program consists of a list of bpf.Instructions.
 // Conditional jumps can point to different labels in the program and must be resolved by calling ResolveJumps.
 //
@@ -72,6 +78,7 @@ type JumpIf struct {
 type Program struct {
 	instructions []bpf.Instruction
 	jumps        []JumpIf
+	bridges      []JumpTo
 	labels       map[Label][]Index
 	nextLabel    Label
 }
@@ -144,75 +151,103 @@ func (p *Program) NewLabel() Label {
 // Assemble resolves all jump destinations to concrete instructions using the labels.
 // This method takes care of long jumps and resolves them by using early returns or unconditional long jumps.
 func (p *Program) Assemble() ([]bpf.Instruction, error) {
+	// BPF does not support long conditional jumps. Every branch that is out of
+	// reach is redirected to a bridge placed directly behind its jump. The jumps
+	// are visited from the last to the first, so a bridge only moves
+	// instructions whose jumps have been visited already, together with their
+	// destinations.
+	for i := len(p.jumps) - 1; i >= 0; i-- {
+		if err := p.bridgeLongBranches(i); err != nil {
+			return nil, err
+		}
+	}
+
+	// All indices are final now.
 	for _, jump := range p.jumps {
 		// This is safe since we are only accessing instructions that were inserted as bpf.JumpIf.
 		jumpInst := p.instructions[jump.index].(bpf.JumpIf)
 
-		skip, err := p.resolveLabel(jump, jump.trueLabel)
+		skipTrue, err := p.computeSkipN(jump.index, jump.trueLabel)
 		if err != nil {
 			return nil, err
 		}
-		jumpInst.SkipTrue = skip
-
-		skip, err = p.resolveLabel(jump, jump.falseLabel)
+		skipFalse, err := p.computeSkipN(jump.index, jump.falseLabel)
 		if err != nil {
 			return nil, err
 		}
-		jumpInst.SkipFalse = skip
-
-		if jumpInst.SkipTrue == 0 && jumpInst.SkipFalse == 0 {
+		if skipTrue > math.MaxUint8 || skipFalse > math.MaxUint8 {
+			return nil, fmt.Errorf("jump destination out of reach")
+		}
+		if skipTrue == 0 && skipFalse == 0 {
 			return nil, fmt.Errorf("useless jump found")
 		}
 
+		jumpInst.SkipTrue = uint8(skipTrue)
+		jumpInst.SkipFalse = uint8(skipFalse)
 		p.instructions[jump.index] = jumpInst
+	}
+
+	for _, bridge := range p.bridges {
+		skipN, err := p.computeSkipN(bridge.index, bridge.label)
+		if err != nil {
+			return nil, err
+		}
+		p.instructions[bridge.index] = bpf.Jump{Skip: uint32(skipN)}
 	}
 
 	return p.instructions, nil
 }
 
-// resolveLabel resolves the label to a short jump.
-func (p *Program) resolveLabel(jump JumpIf, label Label) (uint8, error) {
-	dest := p.labels[label]
-	skipN := p.computeSkipN(jump, label)
+// bridgeLongBranches inserts a bridge for each branch of the jump that is more than 255 instructions away.
+func (p *Program) bridgeLongBranches(n int) error {
+	jump := p.jumps[n]
 
-	for skipN < 0 {
-		dest = dest[1:]
-		if len(dest) == 0 {
-			return 0, fmt.Errorf("backward jumps are not supported")
-		}
-		p.labels[label] = dest
-		skipN = p.computeSkipN(jump, label)
+	skipTrue, err := p.computeSkipN(jump.index, jump.trueLabel)
+	if err != nil {
+		return err
+	}
+	skipFalse, err := p.computeSkipN(jump.index, jump.falseLabel)
+	if err != nil {
+		return err
 	}
 
-	// BPF does not support long conditional jumps.
-	if skipN > math.MaxUint8 {
-		insertAfter := findInsertAfter(p.jumps, jump)
+	// A bridge for one branch moves the destination of the other branch by one.
+	bridgeTrue := skipTrue > math.MaxUint8 || (skipTrue == math.MaxUint8 && skipFalse > math.MaxUint8)
+	bridgeFalse := skipFalse > math.MaxUint8 || (skipFalse == math.MaxUint8 && skipTrue > math.MaxUint8)
 
-		// If the jump destination is a return instruction, copy it and add an early return,
-		// if not, insert a long jump.
-		jumpDest := p.instructions[dest[0]]
-		if _, ok := jumpDest.(bpf.RetConstant); !ok {
-			jumpDest = bpf.Jump{Skip: uint32(skipN - int(insertAfter.index))}
-		}
-
-		insertIndex := p.insertAfter(insertAfter.index, jumpDest)
-		p.labels[label] = append([]Index{insertIndex}, dest...)
-		skipN = p.computeSkipN(jump, label)
+	at := jump.index + 1
+	if bridgeTrue {
+		p.jumps[n].trueLabel = p.insertBridge(at, jump.trueLabel)
+		at++
 	}
-	return uint8(skipN), nil
+	if bridgeFalse {
+		p.jumps[n].falseLabel = p.insertBridge(at, jump.falseLabel)
+	}
+	return nil
 }
 
-// Inserts the instruction after the instruction indicated by index, which must come from p.jumps.
-func (p *Program) insertAfter(index Index, inst bpf.Instruction) Index {
-	// This is safe since we are only accessing instructions that were inserted as bpf.JumpIf.
-	jumpInst := p.instructions[index].(bpf.JumpIf)
-	p.instructions[index] = jumpInst
+// insertBridge inserts a bridge to the label at the index and returns a new label that marks the bridge.
+// If the jump destination is a return instruction, the bridge is a copy of it (early return),
+// if not, it is a long jump.
+func (p *Program) insertBridge(at Index, label Label) Label {
+	var inst bpf.Instruction = bpf.Jump{}
+	if dest, err := p.destination(at-1, label); err == nil && int(dest) < len(p.instructions) {
+		if ret, ok := p.instructions[dest].(bpf.RetConstant); ok {
+			inst = ret
+		}
+	}
 
-	index++
-	p.instructions = append(p.instructions[:index+1], p.instructions[index:]...)
-	p.instructions[index] = inst
-	p.updateIndices(index)
-	return index
+	p.instructions = append(p.instructions[:at+1], p.instructions[at:]...)
+	p.instructions[at] = inst
+	p.updateIndices(at)
+
+	if _, ok := inst.(bpf.Jump); ok {
+		p.bridges = append(p.bridges, JumpTo{index: at, label: label})
+	}
+
+	bridgeLabel := p.NewLabel()
+	p.labels[bridgeLabel] = []Index{at}
+	return bridgeLabel
 }
 
 // After inserting a new instruction into the instruction list, the indices are wrong.
@@ -221,6 +256,12 @@ func (p *Program) updateIndices(after Index) {
 	for i := range p.jumps {
 		if p.jumps[i].index >= after {
 			p.jumps[i].index++
+		}
+	}
+
+	for i := range p.bridges {
+		if p.bridges[i].index >= after {
+			p.bridges[i].index++
 		}
 	}
 
@@ -233,26 +274,24 @@ func (p *Program) updateIndices(after Index) {
 	}
 }
 
-// Computes the number of instructions to skip by resolving the label.
-// It might be that the jump is a long jump.
-func (p *Program) computeSkipN(jump JumpIf, label Label) int {
-	dest := p.labels[label]
-	return int(dest[0]-jump.index) - 1
-}
-
-// To insert a new instruction into the instruction list, the furthest jump instruction within
-// a short jump is searched.
-// It is necessary to search a jump instruction to jump over the new inserted instruction
-// and do not disturb the program flow.
-func findInsertAfter(jumps []JumpIf, currentJump JumpIf) JumpIf {
-	insertAfter := currentJump
-	maxIndex := currentJump.index + 255
-	for _, jump := range jumps {
-		if jump.index < maxIndex {
-			insertAfter = jump
+// destination returns the first instruction behind the index from that the label was set to.
+func (p *Program) destination(from Index, label Label) (Index, error) {
+	for _, dest := range p.labels[label] {
+		if dest > from {
+			return dest, nil
 		}
 	}
-	return insertAfter
+	return 0, fmt.Errorf("backward jumps are not supported")
+}
+
+// Computes the number of instructions to skip to get from the instruction at the index to the label.
+// It might be that the jump is a long jump.
+func (p *Program) computeSkipN(from Index, label Label) (int, error) {
+	dest, err := p.destination(from, label)
+	if err != nil {
+		return 0, err
+	}
+	return int(dest-from) - 1, nil
 }
 
 // Calculate the index of the current instruction.
